@@ -268,6 +268,31 @@ func cmpOf(cond ssa.Value) (c cmp, truth bool, ok bool) {
 				return cmp{x.Op, x.X, x.Y}, truth, true
 			}
 			return c, truth, false
+		case *ssa.Call, *ssa.Extract:
+			// the comparison computed by a new helper and handed back as (one of) its results:
+			// "start, end, hasBlock := alignedRange(...)" with a single "return s, e, s < e"
+			idx := 0
+			call, _ := x.(*ssa.Call)
+			if ex, isEx := x.(*ssa.Extract); isEx {
+				call, _ = ex.Tuple.(*ssa.Call)
+				idx = ex.Index
+			}
+			if call == nil {
+				return c, truth, false
+			}
+			h := call.Call.StaticCallee()
+			if h == nil || !newHelpers[h] || len(h.Blocks) == 0 {
+				return c, truth, false
+			}
+			rets := returnsOf(h)
+			if len(rets) != 1 || idx >= len(rets[0].Results) {
+				return c, truth, false
+			}
+			inner, t2, ok2 := cmpOf(rets[0].Results[idx])
+			if !ok2 {
+				return c, truth, false
+			}
+			return inner, truth == t2, true
 		default:
 			return c, truth, false
 		}
@@ -709,6 +734,42 @@ func lastIf(b *ssa.BasicBlock) *ssa.If {
 }
 
 // returnsOf lists the Return instructions of fn.
+// returnsDeep lists the returns of fn, replacing a return that only forwards the results of a
+// new helper ("return d.readTail(hdr, n, 1)") by the returns of that helper.
+func returnsDeep(fn *ssa.Function, depth int) []*ssa.Return {
+	var out []*ssa.Return
+	for _, r := range returnsOf(fn) {
+		var call *ssa.Call
+		forwards := len(r.Results) > 0
+		for i, res := range r.Results {
+			var cl *ssa.Call
+			switch x := res.(type) {
+			case *ssa.Extract:
+				if x.Index == i {
+					cl, _ = x.Tuple.(*ssa.Call)
+				}
+			case *ssa.Call:
+				if len(r.Results) == 1 {
+					cl = x
+				}
+			}
+			if cl == nil || (call != nil && cl != call) {
+				forwards = false
+				break
+			}
+			call = cl
+		}
+		if forwards && call != nil && depth < 4 {
+			if h := directCallee(call); h != nil && newHelpers[h] && h.Blocks != nil {
+				out = append(out, returnsDeep(h, depth+1)...)
+				continue
+			}
+		}
+		out = append(out, r)
+	}
+	return out
+}
+
 func returnsOf(fn *ssa.Function) []*ssa.Return {
 	var out []*ssa.Return
 	for _, b := range fn.Blocks {
